@@ -57,6 +57,7 @@ type Map struct {
 	index   map[string]int // concrete key hash -> entry index; valid only if allConcrete
 	allConc bool
 	live    int
+	lazy    *lazyMapInfo
 }
 
 // Poison marks the result of a package-initialiser call that could not be
@@ -265,6 +266,9 @@ func isConcrete(v Value) bool {
 	case Iface:
 		if v.t == nil {
 			return true
+		}
+		if v.t == lazyType {
+			return false
 		}
 		return isConcrete(v.v)
 	}
